@@ -240,7 +240,7 @@ def parse_diag(out):
     res = {}
     for m in re.finditer(r"\[([^\[\]]*)\]", out):
         nums = [int(x) for x in re.findall(r"(\d+)%N", m.group(1))]
-        if nums and 7001 <= nums[0] <= 7007:
+        if nums and 7001 <= nums[0] <= 7009:
             res[nums[0]] = nums[1:]
     return res
 
@@ -310,6 +310,15 @@ def run(ck, tier, rng):
     else:
         ck.notes.append("diagnostics (custom rows) did not compile: " + dout2[-300:])
     custom_ok = set(diag.get(7006, []))
+    # read side of the custom classes lifted to rows by proofs/C11_rows_custom_read.v
+    rc3, dout3 = _run(["timeout", "600", "coqc", "-Q", ".", "V", "diag/Diag_C11c.v"], cwd=COQ)
+    if rc3 == 0:
+        diag.update(parse_diag(dout3))
+    else:
+        ck.notes.append("diagnostics (custom read rows) did not compile: " + dout3[-300:])
+    custom_read_ok = set(diag.get(7008, []))
+    # a custom row whose lexical space the class theorem does not cover (7009) is replayed like a generic read failure
+    diag[7002] = list(diag.get(7002, [])) + [i for i in diag.get(7009, []) if i not in diag.get(7002, [])]
     for rid in diag.get(7001, []) + diag.get(7007, []):
         r = rows[rid]
         st = st_class(r["st"])
@@ -424,9 +433,11 @@ def run(ck, tier, rng):
         trusted_base=TB, assumptions=ASSUME,
         extra={"attribute_rows": len(rows), "write_judged_by_theorem": len(rows) - len([i for i in diag.get(7003, []) if i not in custom_ok]) - len(diag.get(7001, [])),
                "write_judged_by_class_range_theorem": [rows[i]["sig"] for i in sorted(custom_ok)],
-               "read_judged_by_theorem": len(rows) - len(diag.get(7004, [])) - len(diag.get(7002, [])),
+               "read_judged_by_theorem": len(rows) - len([i for i in diag.get(7004, []) if i not in custom_read_ok]) - len([i for i in diag.get(7002, []) if i not in diag.get(7009, [])]),
+               "read_judged_by_class_theorem": [rows[i]["sig"] for i in sorted(custom_read_ok)],
+               "read_refuted_by_theorem": [rows[i]["sig"] for i in sorted(set(diag.get(7002, [])))],
                "write_not_judged": [rows[i]["sig"] for i in diag.get(7003, []) if i not in custom_ok],
-               "read_not_judged": [rows[i]["sig"] for i in diag.get(7004, [])],
+               "read_not_judged": [rows[i]["sig"] for i in diag.get(7004, []) if i not in custom_read_ok and i not in diag.get(7009, [])],
                "roundtrip_not_covered_by_theorem": [rows[i]["sig"] for i in diag.get(7005, [])],
                "simple_types": len(meta["simple_types"]), "gallina_defs": meta["n_defs"],
                "correspondence_diffs": diffs, "exhaustive": False})
